@@ -23,7 +23,7 @@ func init() {
 		Assumptions: []string{"only 0 <= i < n (outside, the functions panic by design)"},
 		Flavours:    releaseThenGo126,
 		Required: []string{"i=n-1", "i%32=31", "i%32=0", "i%32=1", "answer-word!=checkpoint-word", "next/same-word", "next/later-word", "next/skips-empty-words", "next/absent",
-			"lane=0", "lane=1", "lane=2", "lane=3", "answer-in-high-byte-of-lane", "answer-in-low-byte-of-lane", "bitmap/no-ones"},
+			"lane=0", "lane=1", "lane=2", "lane=3", "answer-in-high-byte-of-lane", "answer-in-low-byte-of-lane", "bitmap/no-ones", "ones>=65536"},
 		Families: func(c *mon.Config) []mon.Family {
 			return []mon.Family{
 				{Name: "lanes16", N: 4 * 2 * 64, Run: c02Lanes},
@@ -31,6 +31,7 @@ func init() {
 				{Name: "gaps", N: c.Pick(10000, 2000000), Run: c02Gaps},
 				{Name: "zoo", N: c.Pick(20000, 3000000), Run: c02Zoo},
 				{Name: "zoo-long", N: c.Pick(400, 100000), Run: c02ZooLong},
+				{Name: "dense-long", N: c.Pick(6, 300), Run: c02DenseLong},
 			}
 		},
 	})
@@ -293,5 +294,35 @@ func c02ZooLong(w *mon.W, idx int) {
 	if c02Check(w, words, &pos, &cov) {
 		cov.flush(w)
 		w.Sample(func() interface{} { return mon.D{"nwords": len(words)} })
+	}
+}
+
+// c02DenseLong: all-one / dense / half-empty bitmaps of 1030..2100 words: more than 2^16 ones, select
+// checkpoints far from the start, long skip loops.
+func c02DenseLong(w *mon.W, idx int) {
+	r := w.Rng
+	n := []int{1030, 1100, 2100}[idx%3]
+	words := make([]uint64, n)
+	for i := range words {
+		switch (idx / 3) % 3 {
+		case 0:
+			words[i] = ^uint64(0)
+		case 1:
+			words[i] = r.Uint64() | r.Uint64() | r.Uint64()
+		default:
+			if i%2 == 0 || i > n-300 {
+				words[i] = ^uint64(0)
+			}
+		}
+	}
+	w.Tick()
+	var pos []int32
+	var cov c02Cov
+	if c02Check(w, words, &pos, &cov) {
+		cov.flush(w)
+		if len(pos) >= 65536 {
+			w.Bucket("ones>=65536")
+		}
+		w.Sample(func() interface{} { return mon.D{"nwords": n, "ones": len(pos), "what": "dense long bitmap"} })
 	}
 }
